@@ -228,7 +228,19 @@ def main():
         if kind == "lake-build":
             mine = re.findall(r"error: (SaoVerif/[\w/]+\.lean):(\d+)", msg)
             files = set(f for f, _ in mine)
-            rel = [f for f in files if f"Properties/{prop}" in f or "Properties/" not in f]
+            # relevant: the property's own files, what they import (transitively) and everything outside Properties/
+            mineFiles = set(os.path.relpath(x, ctx.lean) for x in glob.glob(os.path.join(ctx.lean, f"SaoVerif/Properties/{prop}*.lean")))
+            todo = list(mineFiles)
+            while todo:
+                cur = todo.pop()
+                try:
+                    for imp in re.findall(r"^import (SaoVerif\.[\w.]+)", open(os.path.join(ctx.lean, cur)).read(), flags=re.M):
+                        fimp = imp.replace(".", "/") + ".lean"
+                        if fimp not in mineFiles:
+                            mineFiles.add(fimp); todo.append(fimp)
+                except Exception:
+                    pass
+            rel = [f for f in files if f in mineFiles or "Properties/" not in f]
             if rel or not files:
                 # name the declarations that no longer check
                 decls = []
